@@ -163,6 +163,11 @@ namespace AIToolbox::Factored::MDP {
 
     const State & CooperativeModel::getS() const { return graph_.getS(); }
     const Action & CooperativeModel::getA() const { return graph_.getA(); }
+    void CooperativeModel::setDiscount(const double d) {
+        if ( !(d > 0.0 && d <= 1.0) ) throw std::invalid_argument("Discount parameter must be in (0,1]");
+        discount_ = d;
+    }
+
     double CooperativeModel::getDiscount() const { return discount_; }
     const DDN & CooperativeModel::getTransitionFunction() const { return transitions_; }
     const FactoredMatrix2D & CooperativeModel::getRewardFunction() const { return rewards_; }
